@@ -61,12 +61,19 @@ func giantSkipValues(c *Ctx) {
 	vals = append(vals, gv{13, append([]byte{10, 10}, put32(1<<28)...), 6 + int64(1<<28)*16, "map<i64,i64>"})
 	vals = append(vals, gv{13, append([]byte{8, 10}, put32(1<<28+3)...), 6 + int64(1<<28+3)*12, "map<i32,i64>"})
 	vals = append(vals, gv{15, append([]byte{8}, put32(1<<30)...), 5 + int64(1<<30)*4, "list<i32>"})
+	// strings whose bytes are really there, right up to the largest length the wire can declare; bare and as the only
+	// field of a struct / element of a list
+	for _, sl := range []uint32{1<<31 - 1, 1<<31 - 2, 1<<31 - 4, 1<<31 - 5, 1<<30 + 1, 1<<31 - 4096} {
+		vals = append(vals, gv{11, put32(sl), 4 + int64(sl), "string"})
+		vals = append(vals, gv{15, append([]byte{11, 0, 0, 0, 1}, put32(sl)...), 9 + int64(sl), "list<string>[1]"})
+		vals = append(vals, gv{12, append([]byte{11, 0, 9}, put32(sl)...), 3 + 4 + int64(sl) + 1, "struct{9: string}"})
+	}
 	var n int64
 	for _, v := range vals {
 		if v.want+1 > int64(len(buf)) {
 			continue
 		}
-		for i := range buf[:8] {
+		for i := range buf[:16] {
 			buf[i] = 0
 		}
 		copy(buf, v.hdr)
